@@ -225,8 +225,9 @@ theorem sema_balanced :
     inside the deferred block that opens the goroutine body. -/
 theorem sema_skeleton :
     Gen.Skeleton.openFilesToChan.count "send:sema" = 1 ∧ Gen.Skeleton.openFilesToChan.count "recv:sema" = 1 ∧
-    (Gen.Skeleton.openFilesToChan.dropWhile (· ≠ "send:sema")).take 7
-      = ["send:sema", "call:wg.Add", "call:out.setSourceCount", "go{", "defer{", "recv:sema", "call:wg.Done"] := by
+    (Gen.Skeleton.openFilesToChan.dropWhile (· ≠ "send:sema")).take 9
+      = ["send:sema", "call:wg.Add", "call:out.setSourceCount", "go{", "defer{", "recv:sema", "call:out.stopFileReading",
+         "call:wg.Done", "}"] := by
   decide
 
 /-- In the transition system of C01 (start = acquire, finish = release): at every reachable state at most
@@ -901,13 +902,15 @@ theorem error_count_enabled {α : Type} (cls : α → Cls) (R B K : Nat) (es : P
   · simpa [List.getElem?_set_ne (Ne.symm e)] using hd
 
 /-- **The code counts before it signals**: over the control tree regenerated from `OpenFilesToChan`, on every
-    execution path of the reader goroutine nothing but `stopFileReading` (status display) runs after `wg.Done()`:
+    execution path of the reader goroutine NOTHING runs after `wg.Done()` – the path ends with the deferred block
+    `<-sema; out.stopFileReading(…); wg.Done()` (status display before the WaitGroup, /repo 7025f4b):
     the statements that can count an error – `out.incErrors()` of the open-failure branch and
     `out.syncReaderToBatcher(…)` with its `OnError` callback – all precede it, and the open-failure path does
     count.  (The guard of `Pipe.EStep.move`; in real runs: the `errtrace` op.) -/
 theorem error_count_precedes_done :
     ∀ t ∈ traces readerBody,
-      (t.dropWhile (· ≠ "do:wg.Done()")).drop 1 = ["do:out.stopFileReading(goFilename)"] ∧
+      t.dropWhile (· ≠ "do:<-sema") = ["do:<-sema", "do:out.stopFileReading(goFilename)", "do:wg.Done()"] ∧
+      (t.dropWhile (· ≠ "do:wg.Done()")).drop 1 = [] ∧
       ((t.takeWhile (· ≠ "do:wg.Done()")).contains "do:out.incErrors()" ∨
        (t.takeWhile (· ≠ "do:wg.Done()")).contains "do:out.syncReaderToBatcher(goFilename,file,batchSize)") ∧
       "do:out.incErrors()" ∉ t.dropWhile (· ≠ "do:wg.Done()") := by
@@ -928,9 +931,9 @@ theorem errtrace_rule_sound (tr : List ErrTrace.TEv) (h : ErrTrace.check tr = tr
     in the deferred block after `wg.Done()` does not -/
 example :
     ErrTrace.check [⟨0, "aq", 0⟩, ⟨1, "rs", 0⟩, ⟨1, "so", 0⟩, ⟨1, "rl", 0⟩, ⟨0, "aq", 1⟩, ⟨2, "rs", 1⟩, ⟨2, "se", 9⟩,
-      ⟨2, "rl", 1⟩, ⟨1, "sc", 0⟩, ⟨0, "cw", 9⟩, ⟨0, "cc", 9⟩, ⟨2, "sc", 1⟩] = true ∧
+      ⟨2, "rl", 1⟩, ⟨1, "sc", 0⟩, ⟨2, "sc", 1⟩, ⟨0, "cw", 9⟩, ⟨0, "cc", 9⟩] = true ∧
     ErrTrace.check [⟨0, "aq", 0⟩, ⟨1, "rs", 0⟩, ⟨1, "so", 0⟩, ⟨1, "rl", 0⟩, ⟨0, "aq", 1⟩, ⟨2, "rs", 1⟩,
-      ⟨2, "rl", 1⟩, ⟨0, "cw", 9⟩, ⟨0, "cc", 9⟩, ⟨2, "se", 9⟩, ⟨2, "sc", 1⟩] = false := by decide
+      ⟨2, "rl", 1⟩, ⟨1, "sc", 0⟩, ⟨2, "sc", 1⟩, ⟨0, "cw", 9⟩, ⟨0, "cc", 9⟩, ⟨2, "se", 9⟩] = false := by decide
 
 /-- `errors_counted_before_close` is not vacuous: a source that cannot be opened – the run in which it starts, counts
     its error, finishes, and the channel closes -/
